@@ -1063,6 +1063,297 @@ theorem reset_default_loses_configuration (dflt : PBMCfg α) (s : Reg α) (p : P
     obtain ⟨_, _, rfl⟩ := hq
     rfl
 
+/-! ### coupled runs: several models solved together through `Coupler` (GenericModel.py 453-465)
+
+`Coupler.postProcess` calls every model's `postProcess` and or-combines the returned flags.  The run of
+the coupler therefore ends at the first step at which ANY coupled model requests the stop — whatever its
+position in the list — and otherwise at the end time; all models are stepped together, so each of them is
+at that step when the run ends. -/
+
+theorem foldl_or_any (flags : List Bool) (b : Bool) :
+    flags.foldl (fun stop s => stop || s) b = (b || flags.any id) := by
+  induction flags generalizing b with
+  | nil => simp
+  | cons x xs ih => simp [List.foldl_cons, ih, Bool.or_assoc]
+
+/-- the loop of `Coupler.postProcess` computes `any` of the returned flags -/
+theorem couplerStop_eq_any (flags : List Bool) : couplerStop flags = flags.any id := by
+  unfold couplerStop; rw [foldl_or_any]; simp
+
+/-- **the coupler requests the stop iff some coupled model does** -/
+theorem coupler_stops_iff_any (flags : List Bool) :
+    couplerStop flags = true ↔ ∃ s ∈ flags, s = true := by
+  rw [couplerStop_eq_any]; simp
+
+theorem coupler_no_stop_iff (flags : List Bool) :
+    couplerStop flags = false ↔ ∀ s ∈ flags, s = false := by
+  rw [couplerStop_eq_any]; simp
+
+/-- … **at every position of the list**: the combined flag does not depend on the order of the models -/
+theorem couplerStop_perm {l l' : List Bool} (h : l.Perm l') : couplerStop l = couplerStop l' := by
+  have key : ∀ {a b : List Bool}, a.Perm b → ∀ s, s ∈ a ↔ s ∈ b := fun h s => h.mem_iff
+  cases hl : couplerStop l with
+  | true =>
+    obtain ⟨s, hs, rfl⟩ := (coupler_stops_iff_any l).mp hl
+    exact ((coupler_stops_iff_any l').mpr ⟨true, (key h true).mp hs, rfl⟩).symm
+  | false =>
+    refine ((coupler_no_stop_iff l').mpr fun s hs => ?_).symm
+    exact (coupler_no_stop_iff l).mp hl s ((key h s).mpr hs)
+
+/-- the variant that keeps only the last assignment returns the LAST model's flag … -/
+theorem couplerStopLast_append (l : List Bool) (s : Bool) : couplerStopLast (l ++ [s]) = s := by
+  simp [couplerStopLast, List.foldl_append]
+
+/-- … so a request of any model that is not the last one is lost (witness, any number of models in front),
+while the code's flag is true as soon as the first model requests -/
+theorem last_flag_only_drops_requests (l : List Bool) :
+    couplerStopLast (true :: l ++ [false]) = false ∧ couplerStop (true :: l ++ [false]) = true := by
+  refine ⟨?_, ?_⟩
+  · have := couplerStopLast_append (true :: l) false
+    simpa using this
+  · exact (coupler_stops_iff_any _).mpr ⟨true, by simp, rfl⟩
+
+theorem evolved_zero (x : CModel α) : x.evolved 0 = x := by cases x <;> rfl
+
+theorem map_evolved_zero (ms : List (CModel α)) : ms.map (CModel.evolved 0) = ms := by
+  induction ms with
+  | nil => rfl
+  | cons x xs ih => simp [evolved_zero, ih]
+
+/-- one step of one coupled model in general position -/
+theorem post_evolved (x : CModel α) (k : Nat) :
+    CModel.post (k+1) (x.evolved k) = (x.evolved (k+1), x.requestAt (k+1)) := by
+  cases x <;> rfl
+
+/-- models that are not precipitation models never request the stop -/
+theorem other_never_requests (j : Nat) : (CModel.other : CModel α).requestAt j = false := rfl
+
+/-- **a precipitation model's request, in terms of its own history** (clear latches at the start):
+its own and/or rule on its own rows 1..j -/
+theorem prec_request_iff_history (d : PData α) (es : List (Entry α)) (j : Nat)
+    (hclear : ∀ e ∈ es, e.l.sat = false) :
+    (CModel.prec d es).requestAt j = true ↔
+      (∃ e ∈ es, e.isOr = true ∧
+        ∃ i, 1 ≤ i ∧ i ≤ j ∧ holds e.c.dir e.c.value (poll d e.c i) = true) ∨
+      (0 < es.countP (fun e => !e.isOr) ∧
+        ∀ e ∈ es, e.isOr = false →
+          ∃ i, 1 ≤ i ∧ i ≤ j ∧ holds e.c.dir e.c.value (poll d e.c i) = true) :=
+  stop_after_iff d es j hclear
+
+/-- `Coupler.postProcess` in general position: every model is stepped, the flags are the models' requests -/
+theorem couplerPost_evolved (comb : List Bool → Bool) (ms : List (CModel α)) (k : Nat) :
+    couplerPostWith comb (k+1) (ms.map (CModel.evolved k)) =
+      (ms.map (CModel.evolved (k+1)), ms.map (CModel.requestAt (k+1)),
+       comb (ms.map (CModel.requestAt (k+1)))) := by
+  unfold couplerPostWith
+  simp only [List.map_map, Function.comp_def, post_evolved]
+
+/-- what the coupled loop returns, in general position, for any combination of the flags -/
+theorem coupledRun_sound_aux (comb : List Bool → Bool) (clock : Nat → α) (tf : α)
+    (ms0 : List (CModel α)) (f k m : Nat) (b : Bool) (ms' : List (CModel α))
+    (h : coupledRunWith comb clock tf f k (ms0.map (CModel.evolved k)) = (m, b, ms')) :
+    ms' = ms0.map (CModel.evolved m) ∧ k ≤ m ∧ m ≤ k + f ∧
+    (∀ j, k ≤ j → j < m → clock j < tf) ∧
+    (∀ j, k < j → j < m → comb (ms0.map (CModel.requestAt j)) = false) ∧
+    (b = true → k < m ∧ comb (ms0.map (CModel.requestAt m)) = true) ∧
+    (b = false → (k < m → comb (ms0.map (CModel.requestAt m)) = false) ∧ (¬ clock m < tf ∨ m = k + f)) := by
+  induction f generalizing k with
+  | zero =>
+    simp only [coupledRunWith, Prod.mk.injEq] at h
+    obtain ⟨rfl, rfl, rfl⟩ := h
+    refine ⟨rfl, le_refl _, by omega, by intro j h1 h2; omega, by intro j h1 h2; omega, by simp, ?_⟩
+    intro _; exact ⟨by intro h; omega, Or.inr rfl⟩
+  | succ f ih =>
+    unfold coupledRunWith at h
+    by_cases ht : clock k < tf
+    · simp only [ht, if_true] at h
+      rw [couplerPost_evolved] at h
+      by_cases hs : comb (ms0.map (CModel.requestAt (k+1))) = true
+      · simp only [hs, if_true, Prod.mk.injEq] at h
+        obtain ⟨rfl, rfl, rfl⟩ := h
+        refine ⟨rfl, by omega, by omega, ?_, by intro j h1 h2; omega, fun _ => ⟨by omega, hs⟩, by simp⟩
+        intro j h1 h2
+        have : j = k := by omega
+        subst this; exact ht
+      · have hs' : comb (ms0.map (CModel.requestAt (k+1))) = false := by simpa using hs
+        simp only [hs', Bool.false_eq_true, if_false] at h
+        obtain ⟨e1, e2, e3, e4, e5, e6, e7⟩ := ih (k+1) h
+        refine ⟨e1, by omega, by omega, ?_, ?_, ?_, ?_⟩
+        · intro j h1 h2
+          rcases Nat.eq_or_lt_of_le h1 with h | h
+          · subst h; exact ht
+          · exact e4 j h h2
+        · intro j h1 h2
+          rcases Nat.eq_or_lt_of_le (Nat.succ_le_of_lt h1) with h | h
+          · rw [← h]; exact hs'
+          · exact e5 j h h2
+        · intro hb; exact ⟨by omega, (e6 hb).2⟩
+        · intro hb
+          obtain ⟨g1, g2⟩ := e7 hb
+          refine ⟨?_, ?_⟩
+          · intro _
+            rcases Nat.eq_or_lt_of_le e2 with h | h
+            · rw [← h]; exact hs'
+            · exact g1 h
+          · rcases g2 with g | g
+            · exact Or.inl g
+            · exact Or.inr (by omega)
+    · simp only [ht, if_false, Prod.mk.injEq] at h
+      obtain ⟨rfl, rfl, rfl⟩ := h
+      refine ⟨rfl, le_refl _, by omega, by intro j h1 h2; omega, by intro j h1 h2; omega, by simp, ?_⟩
+      intro _; exact ⟨by intro h; omega, Or.inl ht⟩
+
+/-- **a coupled run ends at the first step at which ANY coupled model requests the stop** (soundness):
+if the loop over the coupler reports an early stop at row m, then some model of the list — at whatever
+position — requests the stop after step m, no model requested it after an earlier step, every earlier
+row was before the end time, and EVERY coupled model has been stepped to row m (all clocks are the
+stop time). -/
+theorem coupled_run_ends_at_first_request (clock : Nat → α) (tf : α) (ms : List (CModel α))
+    (fuel m : Nat) (ms' : List (CModel α)) (h : coupledRun clock tf fuel 0 ms = (m, true, ms')) :
+    1 ≤ m ∧ (∃ x ∈ ms, x.requestAt m = true) ∧
+    (∀ j, 1 ≤ j → j < m → ∀ x ∈ ms, x.requestAt j = false) ∧
+    (∀ j, j < m → clock j < tf) ∧ ms' = ms.map (CModel.evolved m) := by
+  have h0 : coupledRunWith couplerStop clock tf fuel 0 (ms.map (CModel.evolved 0)) = (m, true, ms') := by
+    rw [map_evolved_zero]; exact h
+  obtain ⟨e1, e2, e3, e4, e5, e6, e7⟩ := coupledRun_sound_aux couplerStop clock tf ms fuel 0 m true ms' h0
+  obtain ⟨g1, g2⟩ := e6 rfl
+  refine ⟨g1, ?_, ?_, fun j h2 => e4 j (Nat.zero_le _) h2, e1⟩
+  · obtain ⟨s, hs, rfl⟩ := (coupler_stops_iff_any _).mp g2
+    obtain ⟨x, hx, hxs⟩ := List.mem_map.mp hs
+    exact ⟨x, hx, hxs⟩
+  · intro j h1 h2 x hx
+    exact (coupler_no_stop_iff _).mp (e5 j h1 h2) _ (List.mem_map.mpr ⟨x, hx, rfl⟩)
+
+/-- **otherwise the coupled run goes to the end time** (soundness): no early stop (and not cut by the step
+bound) means no model requested the stop after any step and row m is the first at or beyond the end time -/
+theorem coupled_run_end_sound (clock : Nat → α) (tf : α) (ms : List (CModel α))
+    (fuel m : Nat) (ms' : List (CModel α)) (h : coupledRun clock tf fuel 0 ms = (m, false, ms'))
+    (hm : m < fuel) :
+    ¬ clock m < tf ∧ (∀ j, j < m → clock j < tf) ∧
+    (∀ j, 1 ≤ j → j ≤ m → ∀ x ∈ ms, x.requestAt j = false) ∧ ms' = ms.map (CModel.evolved m) := by
+  have h0 : coupledRunWith couplerStop clock tf fuel 0 (ms.map (CModel.evolved 0)) = (m, false, ms') := by
+    rw [map_evolved_zero]; exact h
+  obtain ⟨e1, e2, e3, e4, e5, e6, e7⟩ := coupledRun_sound_aux couplerStop clock tf ms fuel 0 m false ms' h0
+  obtain ⟨g1, g2⟩ := e7 rfl
+  refine ⟨?_, fun j h2 => e4 j (Nat.zero_le _) h2, ?_, e1⟩
+  · rcases g2 with g | g
+    · exact g
+    · omega
+  · intro j h1 h2 x hx
+    have : couplerStop (ms.map (CModel.requestAt j)) = false := by
+      rcases Nat.eq_or_lt_of_le h2 with h | h
+      · subst h; exact g1 (by omega)
+      · exact e5 j h1 h
+    exact (coupler_no_stop_iff _).mp this _ (List.mem_map.mpr ⟨x, hx, rfl⟩)
+
+theorem coupledRun_stop_aux (comb : List Bool → Bool) (clock : Nat → α) (tf : α)
+    (ms0 : List (CModel α)) (m : Nat)
+    (htime : ∀ j, j < m → clock j < tf)
+    (hfirst : ∀ j, 1 ≤ j → j < m → comb (ms0.map (CModel.requestAt j)) = false)
+    (hstop : comb (ms0.map (CModel.requestAt m)) = true) (f k : Nat) (hk : k < m) (hf : m ≤ k + f) :
+    coupledRunWith comb clock tf f k (ms0.map (CModel.evolved k)) =
+      (m, true, ms0.map (CModel.evolved m)) := by
+  induction f generalizing k with
+  | zero => omega
+  | succ f ih =>
+    unfold coupledRunWith
+    simp only [htime k hk, if_true]
+    rw [couplerPost_evolved]
+    rcases Nat.eq_or_lt_of_le (Nat.succ_le_of_lt hk) with h | h
+    · have h' : k + 1 = m := h
+      rw [h']; simp [hstop]
+    · have h' : k + 1 < m := h
+      simp only [hfirst (k+1) (by omega) h', Bool.false_eq_true, if_false]
+      exact ih (k+1) h' (by omega)
+
+/-- **completeness**: if m ≥ 1 is the first step after which some coupled model — first, middle or last in
+the list — requests the stop, and the end time was not reached before it, the coupled run stops exactly
+there, with every model at row m. -/
+theorem coupled_run_stops_at_first_request (clock : Nat → α) (tf : α) (ms : List (CModel α))
+    (fuel m : Nat) (hm : 1 ≤ m) (hf : m ≤ fuel) (htime : ∀ j, j < m → clock j < tf)
+    (hfirst : ∀ j, 1 ≤ j → j < m → ∀ x ∈ ms, x.requestAt j = false)
+    (hstop : ∃ x ∈ ms, x.requestAt m = true) :
+    coupledRun clock tf fuel 0 ms = (m, true, ms.map (CModel.evolved m)) := by
+  have := coupledRun_stop_aux couplerStop clock tf ms m htime
+    (fun j h1 h2 => (coupler_no_stop_iff _).mpr (by
+      intro s hs
+      obtain ⟨x, hx, rfl⟩ := List.mem_map.mp hs
+      exact hfirst j h1 h2 x hx))
+    ((coupler_stops_iff_any _).mpr (by
+      obtain ⟨x, hx, hxs⟩ := hstop
+      exact ⟨_, List.mem_map.mpr ⟨x, hx, rfl⟩, hxs⟩))
+    fuel 0 (by omega) (by omega)
+  rw [map_evolved_zero] at this
+  exact this
+
+theorem coupledRun_end_aux (comb : List Bool → Bool) (clock : Nat → α) (tf : α)
+    (ms0 : List (CModel α)) (N : Nat)
+    (htime : ∀ j, j < N → clock j < tf) (hend : ¬ clock N < tf)
+    (hnone : ∀ j, 1 ≤ j → j ≤ N → comb (ms0.map (CModel.requestAt j)) = false)
+    (f k : Nat) (hk : k ≤ N) (hf : N ≤ k + f) :
+    coupledRunWith comb clock tf f k (ms0.map (CModel.evolved k)) =
+      (N, false, ms0.map (CModel.evolved N)) := by
+  induction f generalizing k with
+  | zero =>
+    have : k = N := by omega
+    subst this; rfl
+  | succ f ih =>
+    unfold coupledRunWith
+    rcases Nat.eq_or_lt_of_le hk with h | h
+    · subst h; simp [hend]
+    · simp only [htime k h, if_true]
+      rw [couplerPost_evolved]
+      simp only [hnone (k+1) (by omega) (by omega), Bool.false_eq_true, if_false]
+      exact ih (k+1) (by omega) (by omega)
+
+/-- **completeness, no request**: if no coupled model requests the stop up to the first row N at or beyond the
+end time, the coupled run ends at row N -/
+theorem coupled_run_to_end (clock : Nat → α) (tf : α) (ms : List (CModel α)) (fuel N : Nat)
+    (hf : N ≤ fuel) (htime : ∀ j, j < N → clock j < tf) (hend : ¬ clock N < tf)
+    (hnone : ∀ j, 1 ≤ j → j ≤ N → ∀ x ∈ ms, x.requestAt j = false) :
+    coupledRun clock tf fuel 0 ms = (N, false, ms.map (CModel.evolved N)) := by
+  have := coupledRun_end_aux couplerStop clock tf ms N htime hend
+    (fun j h1 h2 => (coupler_no_stop_iff _).mpr (by
+      intro s hs
+      obtain ⟨x, hx, rfl⟩ := List.mem_map.mp hs
+      exact hnone j h1 h2 x hx))
+    fuel 0 (Nat.zero_le _) (by omega)
+  rw [map_evolved_zero] at this
+  exact this
+
+/-- **the position of the requesting model does not matter**: reordering the coupled models does not change
+where the coupled run ends -/
+theorem coupled_run_position_irrelevant (clock : Nat → α) (tf : α) (ms ms' : List (CModel α))
+    (hp : ms.Perm ms') (fuel : Nat) :
+    (coupledRun clock tf fuel 0 ms).1 = (coupledRun clock tf fuel 0 ms').1 ∧
+    (coupledRun clock tf fuel 0 ms).2.1 = (coupledRun clock tf fuel 0 ms').2.1 := by
+  have key : ∀ (f k : Nat),
+      (coupledRunWith couplerStop clock tf f k (ms.map (CModel.evolved k))).1 =
+        (coupledRunWith couplerStop clock tf f k (ms'.map (CModel.evolved k))).1 ∧
+      (coupledRunWith couplerStop clock tf f k (ms.map (CModel.evolved k))).2.1 =
+        (coupledRunWith couplerStop clock tf f k (ms'.map (CModel.evolved k))).2.1 := by
+    intro f
+    induction f with
+    | zero => intro k; exact ⟨rfl, rfl⟩
+    | succ f ih =>
+      intro k
+      unfold coupledRunWith
+      by_cases ht : clock k < tf
+      · simp only [ht, if_true]
+        rw [couplerPost_evolved, couplerPost_evolved]
+        have hc : couplerStop (ms.map (CModel.requestAt (k+1))) = couplerStop (ms'.map (CModel.requestAt (k+1))) :=
+          couplerStop_perm (hp.map _)
+        simp only [hc]
+        by_cases hs : couplerStop (ms'.map (CModel.requestAt (k+1))) = true
+        · simp [hs]
+        · have hs' : couplerStop (ms'.map (CModel.requestAt (k+1))) = false := by simpa using hs
+          simp only [hs', Bool.false_eq_true, if_false]
+          exact ih (k+1)
+      · simp [ht]
+  have := key fuel 0
+  rw [map_evolved_zero, map_evolved_zero] at this
+  exact this
+
 /-! #### witnesses: the two broken variants -/
 
 /-- the counter variant agrees with the code exactly as long as the counter equals the number of
@@ -1201,5 +1492,63 @@ example : ∀ o ∈ ([.reset, .regrid 0 1 50 60, .ttpInit [0], .reset] : List (O
   intro o ho cfgs
   simp only [List.mem_cons, List.not_mem_nil, or_false] at ho
   rcases ho with rfl | rfl | rfl | rfl <;> simp
+
+/-! #### coupled runs: concrete witness for the last-flag-only variant, non-vacuity of the hypothesis sets -/
+
+/-- a precipitation model on the `demo` history carrying the or-condition f > 1/4 (met on row 3) -/
+def demoPrec : CModel ℚ := .prec demo [⟨demoC, true, Latch.clear⟩]
+
+/-- **requesting model FIRST in the list, last-flag-only variant** (clock k = k, end time 6): the code's coupled run
+ends at row 3, where the precipitation model requests the stop; with the variant the request is overwritten
+by the `False` of the model after it and the run goes on to the end time (row 6, not stopped).  With the
+requesting model LAST the variant is indistinguishable from the code (why a check that only couples in that
+order does not see it). -/
+theorem last_flag_only_runs_past_request_of_first_model :
+    (coupledRun demo.time 6 20 0 [demoPrec, .other]).1 = 3 ∧
+    (coupledRun demo.time 6 20 0 [demoPrec, .other]).2.1 = true ∧
+    (coupledRunWith couplerStopLast demo.time 6 20 0 [demoPrec, .other]).1 = 6 ∧
+    (coupledRunWith couplerStopLast demo.time 6 20 0 [demoPrec, .other]).2.1 = false ∧
+    (coupledRunWith couplerStopLast demo.time 6 20 0 [.other, demoPrec]).1 = 3 ∧
+    (coupledRun demo.time 6 20 0 [.other, demoPrec, .other]).1 = 3 := by
+  refine ⟨?_, ?_, ?_, ?_, ?_, ?_⟩ <;>
+  · simp [coupledRun, coupledRunWith, couplerPostWith, couplerStop, couplerStopLast, CModel.post, demoPrec,
+      testAll, stopFlag, accumulate, test, holds, poll, PData.array, demo, demoC, Latch.clear, crossTime]
+    try norm_num
+
+-- hypothesis set of `coupled_run_stops_at_first_request` (m = 3, requesting model first of two): satisfiable
+example : (∃ x ∈ [demoPrec, .other], x.requestAt 3 = true) ∧
+    (∀ j, 1 ≤ j → j < 3 → ∀ x ∈ [demoPrec, .other], x.requestAt j = false) ∧
+    (∀ j, j < 3 → demo.time j < (6 : ℚ)) := by
+  refine ⟨⟨demoPrec, by simp, ?_⟩, ?_, ?_⟩
+  · simp [demoPrec, CModel.requestAt, evolve, testAll, stopFlag, accumulate, test, holds, poll, PData.array, demo, demoC,
+      Latch.clear, crossTime]
+    try norm_num
+  · intro j h1 h2 x hx
+    have hj : j = 1 ∨ j = 2 := by omega
+    simp only [List.mem_cons, List.not_mem_nil, or_false] at hx
+    rcases hx with rfl | rfl
+    · rcases hj with rfl | rfl <;>
+      · simp [demoPrec, CModel.requestAt, evolve, testAll, stopFlag, accumulate, test, holds, poll, PData.array, demo, demoC,
+          Latch.clear, crossTime]
+        try norm_num
+    · rfl
+  · intro j hj
+    have : j = 0 ∨ j = 1 ∨ j = 2 := by omega
+    rcases this with rfl | rfl | rfl <;> (simp [demo]; try norm_num)
+-- … and the hypothesis `no model requests` of `coupled_run_to_end` excludes something: demoPrec requests at row 3
+example : ¬ ∀ j, 1 ≤ j → j ≤ 6 → ∀ x ∈ [demoPrec, .other], x.requestAt j = false := by
+  intro h
+  have := h 3 (by omega) (by omega) demoPrec (by simp)
+  revert this
+  simp [demoPrec, CModel.requestAt, evolve, testAll, stopFlag, accumulate, test, holds, poll, PData.array, demo, demoC,
+    Latch.clear, crossTime]
+  try norm_num
+-- `coupled_run_position_irrelevant`: a reordering
+example : ([demoPrec, .other, .other] : List (CModel ℚ)).Perm [.other, demoPrec, .other] :=
+  (List.Perm.swap _ _ _)
+-- flags: one request among three models, at each position
+example : couplerStop [true, false, false] = true ∧ couplerStop [false, true, false] = true ∧
+    couplerStop [false, false, true] = true ∧ couplerStop [false, false, false] = false ∧ couplerStop [] = false := by
+  decide
 
 end KawinV.Props.C19
